@@ -4,10 +4,10 @@ CONSTANTS
     MaxAge = 3
     MaxDt = 2
     MaxBDt = 1
-    RestoreKeepsEpisodeStart = TRUE
-    LeaveOKStartsDuration = FALSE
     BatchGaps = {1}
     MaxBatch = 2
+    QCap = 2
+    Variant = {"first-triggered-only-when-triggered"}
 INVARIANTS
     TypeOK
     LevelRule
